@@ -143,7 +143,7 @@ func recOfRequest(r *http.Request, wantHdr map[string][]string) reqRec {
 }
 
 type respRec struct {
-	Status                int
+	Status             int
 	Hdr, Body, Trailer string
 }
 
